@@ -105,7 +105,8 @@ AscSeqs(n, lo, m) ==
 NotTagged(h, v) == ~(IsRef(v) /\ h[-v].k = "tagged")
 
 NewObjectsT(h, kd, maxItems, nleaves, nkeys, tagChoices, unsetTagged) ==
-  IF kd.k = "tagged"
+  IF kd.k = "mleaf" THEN {Obj("mleaf", 0, <<>>)}
+  ELSE IF kd.k = "tagged"
   THEN {Obj("tagged", 0, <<ItemT(1, v, t)>>) :
           \* (a TaggedValue is itself a Buildable: a TaggedValue given as its value is expanded)
           v \in {w \in Values(h, nleaves) : NotTagged(h, w)} \cup (IF unsetTagged THEN {0} ELSE {}),
